@@ -15,7 +15,7 @@ def nrm(n):
 
 
 class Fn:
-    __slots__ = ("d", "path", "name", "crate", "kind", "argc", "vis", "loc", "exp", "impl_exp", "self_ty",
+    __slots__ = ("d", "path", "name", "crate", "kind", "argc", "vis", "loc", "end", "exp", "impl_exp", "self_ty",
                  "trait", "generics", "locals", "vars", "blocks", "tc", "_cfg")
 
     def __init__(self, d, crate):
@@ -28,6 +28,7 @@ class Fn:
         self.argc = d["argc"]
         self.vis = d["vis"]
         self.loc = d["loc"]
+        self.end = d.get("end")
         self.exp = d["exp"]
         self.impl_exp = d["impl_exp"]
         self.self_ty = nrm(d["self_ty"])
